@@ -106,6 +106,20 @@ def cases(seed, tier):
         c["script"][ci]["inject"] = inj
         c["script"][ci]["decisions"] = [{"do": rng.choice(["resume", "resume", "resume", "abort"])} for _ in range(4)]
         yield c
+    # a subscriber fails while it is handed the RunStart of one of the runs (an earlier subscriber has received it
+    # already): the run is open as far as the documents are concerned, so it still gets its RunStop - from the plan's
+    # own close_run if the plan copes with the error, from the engine's clean-up otherwise - and the other runs are
+    # not disturbed
+    for j in range(2):
+        c = copy.deepcopy(case)
+        c["variant"] = f"subscriber-raises-on-start-{j}"
+        c["callbacks"] = {"cbY": {}, "cbX": {"raise_at": {"start": [rng.randrange(nkeys)]}}}
+        c["script"] = [{"do": "subscribe", "cb": "cbY", "name": "all", "token": "y0"}, {"do": "subscribe", "cb": "cbX", "name": "all", "token": "x0"}] + c["script"]
+        if j == 1:
+            plan = c["script"][3]["plan"]
+            for i in range(nkeys):
+                plan[i] = {"op": "try", "site": S(), "body": [plan[i]], "handlers": [{"exc": "Exception", "body": [msg(S, "null")], "reraise": False}]}
+        yield c
 
 
 def check(res):
@@ -133,6 +147,11 @@ def check(res):
                 uid_key[e.d["value"]] = str(m.d["run"])
             elif m.d["kw"].get("tag") == "dup" and e.d["end"] == "error" and e.d.get("exc") != "IllegalMessageSequence":
                 out.append(V("duplicate-key-wrong-error", f"open_run for an open key raised {e.d.get('exc')}"))
+            elif e.d["end"] == "error" and m.d["kw"].get("tag") != "dup":
+                # the RunStart went out and a subscriber then failed on it: the run is open, under this key
+                for d in evs:
+                    if d.kind == "doc" and d.d["name"] == "start" and m.seq < d.seq < e.seq:
+                        uid_key[d.d["doc"]["uid"]] = str(m.d["run"])
     # the duplicate must be thrown at its own yield
     for e in evs:
         if e.kind == "plan" and e.d["what"] == "yield" and e.d["cmd"] == "open_run":
